@@ -13,11 +13,9 @@
      SetSlice/randSize build fresh slices), so an array object is just a list of element headers.
      Element cells ( *VMValue ) are never written in place by the VM (only replaced), therefore cell
      identity is not modelled.  The one place where Go looks at cell identity is the `a == b`
-     pointer shortcut of ValueEqual.  Two headers of the SAME array / dict object always compare
-     equal in Go (all their element pointers are identical), which `value_equal` reproduces by
-     comparing ids first; for two different objects the shortcut can only fire on a shared cell,
-     whose two sides are then the same header, equal under the id rule as well.  Two DISTINCT
-     cyclic objects make Go recurse until the stack is exhausted: the model runs out of fuel.
+     pointer shortcut of ValueEqual; it can only fire on a shared cell, whose two sides are then
+     the same header, and two headers of the same array / dict object are equal by the explicit
+     `arr1 == arr2` / `d1 == d2` test of valueEqualVisit, which `value_equal` reproduces on ids.
    * variable scopes (Context.Attrs), dict bodies and attribute maps of computed values are
      `vmap`s: insertion-ordered association lists living in the heap (they are shared by
      reference: ComputedExecute runs a sub-VM directly on the computed value's map).
@@ -284,9 +282,18 @@ Definition vself_eqb (a b : vself) : bool :=
   | _, _ => false
   end.
 
-(* ValueEqual(a, b, true) on different headers.  None = recursion deeper than the fuel: on a
-   cyclic structure Go recurses until the goroutine stack is exhausted (fatal error). *)
-Fixpoint value_equal (fuel : nat) (fn : fnames) (h : heap) (a b : value) : option bool :=
+Fixpoint mem_pair (x y : N) (l : list (N * N)) : bool :=
+  match l with
+  | [] => false
+  | (a, b) :: r => if ((x =? a) && (y =? b))%N then true else mem_pair x y r
+  end.
+
+(* valueEqualVisit(a, b, true, visiting).  `vis` = the container pairs under comparison on the
+   current path (the Go map entries are deleted again on return): a pair met again counts as
+   equal, so the comparison of self-containing arrays / dicts terminates.  Lengths are compared
+   before the visiting test, as in the code.  None = not enough fuel (the depth is bounded by the
+   number of distinct pairs, so enough fuel always exists). *)
+Fixpoint value_equal_v (fuel : nat) (fn : fnames) (h : heap) (vis : list (N * N)) (a b : value) : option bool :=
   match fuel with
   | O => None
   | S f =>
@@ -299,14 +306,14 @@ Fixpoint value_equal (fuel : nat) (fn : fnames) (h : heap) (a b : value) : optio
     | VFunc x, VFunc y => Some (x =? y)%N             (* *FunctionData pointers *)
     | VNative x _, VNative y _ => Some (String.eqb x y)   (* NativeFunc code pointers; Self ignored *)
     | VArr x, VArr y =>
-      if (x =? y)%N then Some true else                 (* same *ArrayData: every element pointer-equal *)
       let l1 := get_arr x h in
       let l2 := get_arr y h in
       if negb (Nat.eqb (length l1) (length l2)) then Some false
+      else if (x =? y)%N || mem_pair x y vis then Some true
       else (fix go (l1 l2 : list value) : option bool :=
               match l1, l2 with
               | u :: r1, w :: r2 =>
-                match value_equal f fn h u w with
+                match value_equal_v f fn h ((x, y) :: vis) u w with
                 | None => None
                 | Some false => Some false
                 | Some true => go r1 r2
@@ -314,18 +321,18 @@ Fixpoint value_equal (fuel : nat) (fn : fnames) (h : heap) (a b : value) : optio
               | _, _ => Some true
               end) l1 l2
     | VDict x, VDict y =>
-      if (x =? y)%N then Some true else                 (* same *DictData *)
       let m1 := get_map x h in
       let m2 := get_map y h in
       if negb (Nat.eqb (length m1) (length m2)) then Some false
+      else if (x =? y)%N || mem_pair x y vis then Some true
       else (fix go (m1 : vmap) : option bool :=
               match m1 with
               | [] => Some true
               | (k, u) :: r =>
                 match mget k m2 with
-                | None => Some false                   (* MustLoad gives nil: ValueEqual(v, nil) = false *)
+                | None => Some false                   (* MustLoad gives nil: equal(v, nil) = false *)
                 | Some w =>
-                  match value_equal f fn h u w with
+                  match value_equal_v f fn h ((x, y) :: vis) u w with
                   | None => None
                   | Some false => Some false
                   | Some true => go r
@@ -335,6 +342,7 @@ Fixpoint value_equal (fuel : nat) (fn : fnames) (h : heap) (a b : value) : optio
     | _, _ => Some false
     end
   end.
+Definition value_equal (fuel : nat) (fn : fnames) (h : heap) (a b : value) : option bool := value_equal_v fuel fn h [] a b.
 
 (* ------------------------------------------------------------------ indices *)
 (* getRealIndex: None = "无法获取此下标" *)
@@ -414,4 +422,5 @@ Definition keep_sum (desc : bool) (pick : Z) (l : list value) : option Z :=
   if existsb (fun x => two53 <? Z.abs x) nums then None
   else
     let sorted := sort_by (if desc then Z.geb else Z.leb) nums in
+    let pick := if zlen nums <? pick then zlen nums else pick in      (* pickNum clamped to len(nums) *)
     fsum (firstn (Z.to_nat pick) sorted) 0.
